@@ -32,9 +32,11 @@ Local Open Scope Z_scope.
 
 (* ---- which signatures get a client at all (cook.go:135-171, 307-322) ---- *)
 
-(* shoot generates a method exactly for: `*http.Response, error`, or
-   `R, *http.Response, error` with R unnamed and of the form *T, []T, [n]T or
-   map[K]V; everything else is a fatal error *)
+(* shoot generates a method exactly for the value lists `*http.Response, error` and
+   `R, *http.Response, error` with R unnamed and of the form *T, []T or map[K]V
+   ([sig_accepted]); everything else -- including [n]T and every list with a
+   multi-name field -- is a fatal error.  Result NAMES of a two-value list do not
+   matter: the generated method declares its results without them (9d2e9e9) *)
 Theorem C10_method_exists_iff_signature_accepted :
   forall V X (decode : string -> body X -> dec_out V X) bv rs o,
   wf_results rs = true -> scenario_ok bv o = true ->
@@ -70,6 +72,7 @@ Print Assumptions C10_cook_results_characterised.
 Theorem C10_method_refines_spec :
   forall V X (decode : string -> body X -> dec_out V X) bv rs o,
   wf_results rs = true -> sig_accepted rs -> scenario_ok bv o = true ->
+  no_both X o = true ->    (* excluded: Do returning a response AND an error, open finding K_rest_redirect_response_dropped *)
   method_returns decode bv rs o
   = inr (Some (spec_returns V X decode (values rs) o, spec_events X (values rs) o)).
 Proof. exact sg_refines_spec. Qed.
@@ -117,9 +120,12 @@ Theorem C10_2xx_without_result :
 Proof. exact sg_success_no_result. Qed.
 Print Assumptions C10_2xx_without_result.
 
-(* an empty body gives the zero value (given that encoding/json answers an
-   empty stream with io.EOF and leaves the variable untouched: the io.EOF rule
-   of the template turns that into success) *)
+(* "an empty body gives the zero value": what is PROVED is the template's part -- io.EOF from
+   Decode is turned into success and r_ is returned as Decode left it.  That encoding/json answers
+   an empty stream with io.EOF and leaves r_ at its zero value is the hypothesis (the model knows
+   nothing about V); it is MEASURED on every case of the correspondence run (law_ok, verdict 3), not
+   proved.  The same holds for "malformed / wrong-typed JSON is an error": [decode] is a parameter,
+   its answers are measured per case (C10_2xx_decode_error is conditional on them). *)
 Theorem C10_empty_body_gives_zero_value :
   forall V X (decode : string -> body X -> dec_out V X) (zero : string -> V) bv rs r ty p slots ev,
   (forall t, decode t {| b_data := ""; b_fault := None |} = (zero t, Some DEof)) ->
@@ -153,11 +159,23 @@ Print Assumptions C10_4xx_client_error.
 Theorem C10_5xx_server_error :
   forall V X (decode : string -> body X -> dec_out V X) bv rs r slots ev rv,
   wf_results rs = true -> method_returns decode bv rs (OResp r) = inr (Some (slots, ev)) -> view slots = Some rv ->
-  500 <= r_status r ->
+  500 <= r_status r < 600 ->
   rv_err rv = SErr (EText ("server error " ++ dec (r_status r) ++ ": " ++ b_data (r_body r))) /\
   rv_resp rv = SResp r /\ (rv_result rv = None \/ rv_result rv = Some SNil).
-Proof. exact sg_server_error. Qed.
+Proof. exact sg_5xx_server_error. Qed.
 Print Assumptions C10_5xx_server_error.
+
+(* DIVERGENCE from the property text, outside its quantifier (200..599): the text says "5xx
+   a server error, any other status a not supported error"; the code (`>= 500`) reports every
+   status of 600 and above as a server error as well (600..999 can arrive over the wire) *)
+Theorem C10_status_600_and_above_is_reported_as_server_error :
+  forall V X (decode : string -> body X -> dec_out V X) bv rs r slots ev rv,
+  wf_results rs = true -> method_returns decode bv rs (OResp r) = inr (Some (slots, ev)) -> view slots = Some rv ->
+  600 <= r_status r ->
+  rv_err rv = SErr (EText ("server error " ++ dec (r_status r) ++ ": " ++ b_data (r_body r))) /\
+  rv_resp rv = SResp r /\ (rv_result rv = None \/ rv_result rv = Some SNil).
+Proof. exact sg_600_and_above_server_error. Qed.
+Print Assumptions C10_status_600_and_above_is_reported_as_server_error.
 
 Theorem C10_other_status_not_supported :
   forall V X (decode : string -> body X -> dec_out V X) bv rs r slots ev rv,
@@ -168,7 +186,9 @@ Theorem C10_other_status_not_supported :
 Proof. exact sg_unsupported. Qed.
 Print Assumptions C10_other_status_not_supported.
 
-(* the four classes cover Z and are pairwise disjoint *)
+(* the four classes of the CODE (success 200..299, client 400..499, server >= 500 -- i.e. 5xx and
+   everything above, see the divergence noted above --, not supported: the rest) cover Z and
+   are pairwise disjoint *)
 Theorem C10_status_classes_partition : forall s : Z,
   (200 <= s < 300 /\ ~ 400 <= s < 500 /\ ~ 500 <= s /\ ~ (s < 200 \/ 300 <= s < 400)) \/
   (400 <= s < 500 /\ ~ 200 <= s < 300 /\ ~ 500 <= s /\ ~ (s < 200 \/ 300 <= s < 400)) \/
@@ -205,13 +225,33 @@ Theorem C10_failure_returned_unchanged :
 Proof. exact sg_failure. Qed.
 Print Assumptions C10_failure_returned_unchanged.
 
-(* ---- whenever a response was received it is returned (error or not) ---- *)
+(* ---- whenever a response was received it is returned (error or not): proved for every
+   response that Do returns with a nil error.  net/http returns a response TOGETHER with an error
+   in one situation, a failed redirect chain (CheckRedirect; by default the 10th redirect): there
+   the property text is violated, see C10_refuted_K_rest_redirect_response_dropped ---- *)
 Theorem C10_response_always_returned :
   forall V X (decode : string -> body X -> dec_out V X) bv rs r slots ev rv,
   wf_results rs = true -> method_returns decode bv rs (OResp r) = inr (Some (slots, ev)) -> view slots = Some rv ->
   rv_resp rv = SResp r.
 Proof. exact sg_response_always. Qed.
 Print Assumptions C10_response_always_returned.
+
+(* open finding K_rest_redirect_response_dropped (restclient.tmpl:94-97, golden-locked): for EVERY
+   accepted signature, when Do returns (response, error) the method returns as if only the error
+   had come back -- the received response is dropped *)
+Theorem C10_refuted_K_rest_redirect_response_dropped :
+  forall V X (decode : string -> body X -> dec_out V X) bv rs r x,
+  wf_results rs = true -> sig_accepted rs ->
+  exists slots, method_returns decode bv rs (OBoth r x) = inr (Some (slots, [])) /\
+    forall rv, view slots = Some rv -> rv_resp rv = SNil /\ rv_err rv = SErr (EForeign x).
+Proof. exact sg_redirect_response_dropped. Qed.
+Print Assumptions C10_refuted_K_rest_redirect_response_dropped.
+
+Theorem C10_response_with_error_is_handled_like_the_error_alone :
+  forall V X (decode : string -> body X -> dec_out V X) bv rs r x,
+  method_returns decode bv rs (OBoth r x) = method_returns decode bv rs (OFail StDo x).
+Proof. exact sg_both_is_fail. Qed.
+Print Assumptions C10_response_with_error_is_handled_like_the_error_alone.
 
 (* ---- the result is nil on EVERY error path ---- *)
 Theorem C10_result_nil_on_every_error_path :
@@ -230,6 +270,8 @@ Theorem C10_returns_declared_number_of_values :
 Proof. exact sg_arity. Qed.
 Print Assumptions C10_returns_declared_number_of_values.
 
+(* (by definition of the accepted shapes: *T, []T, map[K]V are exactly the nil-able ones; that the
+   generated `return nil, ...` type-checks is shown by the go build of the correspondence run) *)
 Theorem C10_nil_is_a_value_of_the_result_type : forall rs,
   sig_accepted rs -> result_type_nilable (values rs) = true.
 Proof. exact sg_nilable. Qed.
@@ -273,7 +315,7 @@ Print Assumptions C10_body_closed_exactly_once.
 (* ---- the oracle of the correspondence: the boolean property [Pb], evaluated
    on what the implementation did, is satisfied by the model on every case ---- *)
 Theorem C10_model_satisfies_boolean_property : forall c o,
-  wf_results (c_results c) = true ->
+  wf_results (c_results c) = true -> no_both nat (c_out c) = true ->
   law_ok c = true -> model_obs c = Some o -> Pb (with_obs c o) = true.
 Proof. exact model_satisfies_Pb. Qed.
 Print Assumptions C10_model_satisfies_boolean_property.
@@ -283,7 +325,7 @@ Print Assumptions C10_model_satisfies_boolean_property.
    the declared signature, the scenario and the measured json behaviour alone;
    the model's observation is that expected one on every case ... *)
 Theorem C10_model_observation_is_expected : forall c m,
-  wf_results (c_results c) = true ->
+  wf_results (c_results c) = true -> no_both nat (c_out c) = true ->
   law_ok c = true -> model_obs c = Some m -> pobs_of m = expected c.
 Proof. exact model_obs_is_expected. Qed.
 Print Assumptions C10_model_observation_is_expected.
@@ -292,7 +334,7 @@ Print Assumptions C10_model_observation_is_expected.
    it agrees with the model on these observables (a "differs but the property
    holds" verdict can only come from the body events read / Close) *)
 Theorem C10_boolean_property_iff_agreement_with_model : forall c m,
-  wf_results (c_results c) = true ->
+  wf_results (c_results c) = true -> no_both nat (c_out c) = true ->
   law_ok c = true -> model_obs c = Some m ->
   (Pb c = true <-> pobs_of (c_obs c) = pobs_of m).
 Proof. exact Pb_iff_agrees_with_model. Qed.
@@ -371,7 +413,7 @@ Definition ex_case : case :=
      c_obs := {| ob_nout := 3; ob_res := Some ONil; ob_resp := RSame; ob_err := EMsg "client error 404: gone";
                  ob_read := true; ob_closed := 1 |} |}.
 Example C10_example_case :
-  wf_results (c_results ex_case) = true /\ law_ok ex_case = true /\
+  wf_results (c_results ex_case) = true /\ no_both nat (c_out ex_case) = true /\ law_ok ex_case = true /\
   model_obs ex_case = Some (c_obs ex_case) /\ Pb ex_case = true /\ verdict ex_case = 0%N.
 Proof. repeat split; vm_compute; reflexivity. Qed.
 
@@ -386,3 +428,16 @@ Example C10_example_repaired_witnesses :
   (* a pointer to an array is still a fine result *)
   sig_accepted [{| f_names := []; f_type := TStar (TArray (Some "2") (TIdent "int")) |}; resp_field; err_field].
 Proof. repeat split; reflexivity. Qed.
+
+(* the witness of K_rest_redirect_response_dropped: the oracle rejects what the code does *)
+Definition ex_redirect_case : case :=
+  {| c_body_verb := false; c_results := ex_ptr;
+     c_out := OBoth {| r_id := 1; r_status := 302; r_body := {| b_data := ""; b_fault := None |} |} 1%nat;
+     c_zero := {| v_json := "{}"; v_nil := false |};
+     c_dec := ({| v_json := "{}"; v_nil := false |}, None);
+     c_obs := {| ob_nout := 3; ob_res := Some ONil; ob_resp := RNil; ob_err := ESame 1;
+                 ob_read := false; ob_closed := 0 |} |}.
+Example C10_example_redirect_case :
+  model_obs ex_redirect_case = Some (c_obs ex_redirect_case) /\ Pb ex_redirect_case = false /\
+  p_resp (expected ex_redirect_case) = RSame.
+Proof. repeat split; vm_compute; reflexivity. Qed.
